@@ -38,6 +38,7 @@ type Scenario struct {
 	IdleMin   int           `json:"idle_min,omitempty"`   // gated only: before the held attempts, every endpoint serves warm-up requests and then IdleMin minutes pass without traffic (simulated: the collector's time stamps move into the past)
 	UptimeMin int           `json:"uptime_min,omitempty"` // gated only: while the attempts are held, the collector's periodic clean-up pass runs as it would after this many minutes of uptime
 	Abort     bool          `json:"abort,omitempty"`      // the client closes its socket after the first body byte
+	BasePaths []string      `json:"base_paths,omitempty"` // per endpoint: what the configured url carries after host:port ("" | "/" | "/api/": the documented trailing-slash forms)
 }
 
 type ReqObs struct {
@@ -128,12 +129,20 @@ type baseline struct {
 	mo   map[string][3]int64
 }
 
+// epKey: the key production's readers (balancer, status handlers) look an endpoint's numbers up under
+func epKey(s *stack.Stack, name string, b *stack.Backend) string {
+	if e := s.Endpoint(name); e != nil {
+		return e.URLString
+	}
+	return b.URL()
+}
+
 func read(s *stack.Stack, sc *Scenario, backends []*stack.Backend, b0 *baseline) Counters {
 	var c Counters
 	c.Conns = map[string]int64{}
 	cs := s.Stats.GetConnectionStats()
 	for i, e := range sc.EPs {
-		c.Conns[e.Name] = cs[backends[i].URL()]
+		c.Conns[e.Name] = cs[epKey(s, e.Name, backends[i])]
 	}
 	g := s.Stats.GetProxyStats()
 	c.Global = [3]int64{g.TotalRequests, g.SuccessfulRequests, g.FailedRequests}
@@ -142,7 +151,7 @@ func read(s *stack.Stack, sc *Scenario, backends []*stack.Backend, b0 *baseline)
 	c.PerEP = map[string][3]int64{}
 	pe := s.Stats.GetEndpointStats()
 	for i, e := range sc.EPs {
-		x := pe[backends[i].URL()]
+		x := pe[epKey(s, e.Name, backends[i])]
 		c.PerEP[e.Name] = [3]int64{x.TotalRequests, x.SuccessfulRequests, x.FailedRequests}
 	}
 	if t, ok := s.Stats.GetTranslatorStats()["anthropic"]; ok {
@@ -214,6 +223,9 @@ func Run(sc *Scenario) *Obs {
 	for i, e := range sc.EPs {
 		backends[i] = stack.NewBackend(e.Name)
 		eps[i] = stack.EP{Name: e.Name, Type: "openai", Priority: e.Prio, Backend: backends[i]}
+		if i < len(sc.BasePaths) {
+			eps[i].BasePath = sc.BasePaths[i]
+		}
 	}
 	defer func() {
 		for _, b := range backends {
@@ -244,8 +256,8 @@ func Run(sc *Scenario) *Obs {
 	if sc.Route != "proxy" {
 		// the translator route resolves the model through the registry: catalogue "m1" on every endpoint
 		if reg, err := s.Disc.GetRegistry(); err == nil {
-			for _, b := range backends {
-				reg.RegisterModels(context.Background(), b.URL(), []*domain.ModelInfo{{Name: "m1", Type: "llm", LastSeen: time.Now()}})
+			for i, b := range backends {
+				reg.RegisterModels(context.Background(), epKey(s, sc.EPs[i].Name, b), []*domain.ModelInfo{{Name: "m1", Type: "llm", LastSeen: time.Now()}})
 			}
 			deadline := time.Now().Add(2 * time.Second)
 			for time.Now().Before(deadline) {
